@@ -263,6 +263,57 @@ pub fn sign(
     out
 }
 
+/// A valid (signature, public key) pair for trees that are far too tall to build.  Per level a
+/// one-time key pair for leaf `qs[i]` is derived from a random seed, the authentication path is
+/// random, and the root is whatever these hash to (RFC 8554 Algorithm 6a run forwards); level i
+/// signs the public key of level i+1, the bottom level signs `msg`.  To a verifier the result is
+/// indistinguishable from a signature of a fully generated key with those parameters.
+pub fn synthetic_triple(cfg: &Cfg, levels: &[Level], qs: &[u32], msg: &[u8], rng: &mut crate::Rng) -> (Vec<u8>, Vec<u8>) {
+    let n = cfg.n();
+    let l = levels.len();
+    let mut lms_sigs: Vec<Vec<u8>> = vec![Vec::new(); l];
+    let mut pubs: Vec<Vec<u8>> = vec![Vec::new(); l];
+    for i in (0..l).rev() {
+        let lv = &levels[i];
+        let o = params::ots(cfg, params::code_of_w(lv.w)).expect("ots parameters");
+        let lms_code = params::lms_code_of_height(lv.h);
+        let i_tree: [u8; 16] = rng.bytes(16).try_into().unwrap();
+        let seed = rng.bytes(n);
+        let c = rng.bytes(n);
+        let q = qs[i];
+        let content: Vec<u8> = if i + 1 < l { pubs[i + 1].clone() } else { msg.to_vec() };
+        let k = crate::lmots::ots_public(cfg, &o, &i_tree, q, &seed);
+        let mut r: u32 = (1u32 << lv.h) + q;
+        let mut node = lms::leaf_hash(cfg, &i_tree, r, &k);
+        let mut path = Vec::with_capacity(lv.h as usize * n);
+        while r > 1 {
+            let sibling = rng.bytes(n);
+            node = if r & 1 == 1 { lms::intr_hash(cfg, &i_tree, r / 2, &sibling, &node) } else { lms::intr_hash(cfg, &i_tree, r / 2, &node, &sibling) };
+            path.extend_from_slice(&sibling);
+            r /= 2;
+        }
+        pubs[i] = lms::lms_public_key(lms_code, o.code, &i_tree, &node);
+        let mut sg = Vec::new();
+        sg.extend_from_slice(&q.to_be_bytes());
+        sg.extend_from_slice(&o.code.to_be_bytes());
+        sg.extend_from_slice(&c);
+        sg.extend_from_slice(&crate::lmots::ots_sign(cfg, &o, &i_tree, q, &seed, &c, &content));
+        sg.extend_from_slice(&lms_code.to_be_bytes());
+        sg.extend_from_slice(&path);
+        lms_sigs[i] = sg;
+    }
+    let mut sig = ((l - 1) as u32).to_be_bytes().to_vec();
+    for i in 0..l {
+        sig.extend_from_slice(&lms_sigs[i]);
+        if i + 1 < l {
+            sig.extend_from_slice(&pubs[i + 1]);
+        }
+    }
+    let mut pk = (l as u32).to_be_bytes().to_vec();
+    pk.extend_from_slice(&pubs[0]);
+    (sig, pk)
+}
+
 // ---------------------------------------------------------------------------------------------
 // parsing and verification
 
